@@ -244,6 +244,36 @@ def run(ctx):
                     delim.add(v)
     esc = methods.get("_parse_escape_sequence")
     if esc is not None and delim:
+        # the set may come in as a parameter: then its default and every argument passed must be that constant set
+        for n in walk_no_nested(esc.node):
+            if isinstance(n, ast.Compare) and len(n.ops) == 1 and isinstance(n.ops[0], ast.In) and is_self_attr(n.left) and n.left.attr in optional \
+                    and isinstance(n.comparators[0], ast.Name) and n.comparators[0].id in esc.params:
+                prm = n.comparators[0].id
+                vals = []
+                a = esc.node.args
+                pos = [x.arg for x in a.args]
+                if prm in pos:
+                    k = pos.index(prm) - (len(pos) - len(a.defaults))
+                    if k >= 0:
+                        vals.append((esc, a.defaults[k]))
+                for caller in methods.values():
+                    for c in q.calls(caller):
+                        if isinstance(c.func, ast.Attribute) and c.func.attr == esc.name and isinstance(c.func.value, ast.Name) and c.func.value.id == "self":
+                            av = q.arg_for_param(c, esc, prm) if hasattr(q, "arg_for_param") else (c.args[0] if c.args else None)
+                            if av is not None:
+                                vals.append((caller, av))
+                for fn_, v in vals:
+                    cs_ = None
+                    if isinstance(v, ast.Constant) and isinstance(v.value, str):
+                        cs_ = frozenset(v.value)
+                    elif isinstance(v, (ast.List, ast.Tuple, ast.Set)) and all(isinstance(x, ast.Constant) for x in v.elts):
+                        cs_ = frozenset(x.value for x in v.elts)
+                    if cs_ == frozenset(delim):
+                        r.ok("%s: escape set %s = the delimiters" % (fn_.short, norm(v)))
+                    else:
+                        r.fail(fn_, v, "escape set " + norm(v), "the characters an escape drops the backslash from are given as `%s` here, which is not the constant set of quote "
+                               "delimiters %s: inside one kind of quotes the other quote character keeps its backslash, so a quoted token does not tokenise back to itself"
+                               % (norm(v), sorted(delim)))
         for n, cs_ in char_sets(esc):
             if cs_ == frozenset(delim):
                 r.ok("%s unescapes exactly the delimiters %s" % (esc.short, sorted(delim)))
@@ -307,6 +337,41 @@ def run(ctx):
             m = c.methods.get("has_token")
             r.fail(m or init, (m or init).node, "%s.has_token -> %s" % (c.name, has_tok), "%s.has_token consults %s instead of the tokens (%s)" % (c.name, has_tok, tok_f))
         summaries[c.name] = (bool(tok_f), bool(opt_f), derived_ok)
+
+    # ---------------------------------------------------------------- R5
+    r = ctx.rule("C08-R5", "ORDER", "every token the scanner produces is kept: the value of each token-producing call in the list-building loop "
+                 "is appended on every path that follows it (an empty quoted token '' is a token)", reference=1)
+    for name, m in sorted(methods.items()):
+        cfg = ctx.cfg(m)
+        appends = [c for c in q.calls(m) if isinstance(c.func, ast.Attribute) and c.func.attr == "append" and isinstance(c.func.value, ast.Name) and c.args]
+        if not appends:
+            continue
+        lists = {c.func.value.id for c in appends}
+        rets = [x for x in q.returns(m) if isinstance(x.value, ast.Name) and x.value.id in lists]
+        if not rets:
+            continue
+        producers = [c for c in q.calls(m) if isinstance(c.func, ast.Attribute) and isinstance(c.func.value, ast.Name) and c.func.value.id == "self"
+                     and c.func.attr.startswith("_parse") and c.func.attr in methods]
+        for pc in producers:
+            par = getattr(pc, "_parent", None)
+            if isinstance(par, ast.Call) and par in appends and pc in par.args:
+                r.ok("%s: %s appended directly" % (m.short, norm(pc)))
+                continue
+            if isinstance(par, ast.Assign) and isinstance(par.targets[0], ast.Name):
+                v = par.targets[0].id
+                tgt = {n.id for a_ in appends if isinstance(a_.args[0], ast.Name) and a_.args[0].id == v for n in cfg.nodes_of(a_)}
+                src = cfg.node_of(par)
+                # stops: the next draw (the same assignment again), the end of the function
+                stops = {src.id, cfg.exit.id} | {n.id for n in cfg.nodes if n.kind == "return"}
+                if tgt and cfg.all_paths_hit(src.id, tgt, stops):
+                    r.ok("%s: %s appended on every path" % (m.short, v))
+                else:
+                    r.fail(m, par, norm(par) + " not always appended", "%s can drop the token it just scanned (the append of `%s` is conditional): an empty token - '' or \"\" on the "
+                           "command line - disappears, so quoting a token list and tokenising it does not give the list back" % (m.short, v))
+            else:
+                r.fail(m, pc, norm(pc) + " value unused", "%s scans a token and does not append it" % m.short)
+    if r.n == 0:
+        r.fail(methods.get("_parse") or list(methods.values())[0], (methods.get("_parse") or list(methods.values())[0]).node, "no list-building loop", "no token-list building loop found in the scanner")
     return ctx.results
 
 
